@@ -29,7 +29,7 @@ use rustc_middle::mir::{
     Rvalue, StatementKind, TerminatorKind, VarDebugInfoContents,
 };
 use rustc_middle::ty::print::{with_forced_trimmed_paths, with_no_trimmed_paths};
-use rustc_middle::ty::{self, Instance, Ty, TyCtxt, TypingEnv};
+use rustc_middle::ty::{self, Instance, Ty, TyCtxt, TypeVisitableExt, TypingEnv};
 use rustc_span::{ExpnKind, Span};
 
 struct Cb;
@@ -914,6 +914,29 @@ impl<'a, 'tcx> BodyFx<'a, 'tcx> {
                         } else if let Const::Val(cv @ ConstValue::Indirect { .. }, ty) = c.const_ {
                             // e.g. b"n4": &[u8; 2]
                             o.push(("val", self.fx.const_value(cv, ty)));
+                        } else if let Const::Val(ConstValue::Scalar(rustc_middle::mir::interpret::Scalar::Ptr(ptr, _)), ty) = c.const_ {
+                            // thin pointer constant, e.g. b"n4": &[u8; 2]
+                            if let ty::Ref(_, inner, _) = ty.kind() {
+                                let (prov, off) = ptr.into_raw_parts();
+                                if let mir::interpret::GlobalAlloc::Memory(m) = tcx.global_alloc(prov.alloc_id()) {
+                                    o.push(("val", self.fx.decode(m.inner(), off, *inner, 0)));
+                                }
+                            }
+                        } else if let Const::Ty(ty, ct) = c.const_ {
+                            // type-system constants (string patterns of a `match`): evaluate the valtree
+                            if !ct.has_non_region_param() {
+                                if let Ok(cv) = c.const_.eval(tcx, self.env, rustc_span::DUMMY_SP) {
+                                    match cv {
+                                        ConstValue::Slice { .. } => {
+                                            if let Some(b) = cv.try_get_slice_bytes_for_diagnostics(tcx) {
+                                                o.push(("bytes", J::Str(String::from_utf8_lossy(b).to_string())));
+                                            }
+                                        }
+                                        ConstValue::Indirect { .. } => o.push(("val", self.fx.const_value(cv, ty))),
+                                        _ => {}
+                                    }
+                                }
+                            }
                         }
                         o.push(("text", J::Str(with_forced_trimmed_paths!(format!("{}", c.const_)))));
                     }
